@@ -36,6 +36,8 @@ type Config struct {
 	NoReplay    bool
 	Verbose     bool
 	Seed        int
+	genDir      string
+	generated   []c17Handler
 }
 
 func defaultConfig() *Config {
@@ -84,6 +86,22 @@ func (c *Config) overlayFiles() (map[string]string, error) {
 	}
 	if err := add(c.harnessDir(), filepath.Join(c.Repo, "zzvrf", "h_"+strings.ToLower(c.Prop))); err != nil {
 		return nil, err
+	}
+	if c.Prop == "C17" {
+		// governance-gated handlers are enumerated from /repo's current source and their harnesses generated
+		if c.genDir == "" {
+			d, err := os.MkdirTemp("", "gosymx-gen-")
+			if err != nil {
+				return nil, err
+			}
+			c.genDir = d
+			hs, err := generateC17(c.Repo, filepath.Join(d, "zz_gen.go"))
+			if err != nil {
+				return nil, err
+			}
+			c.generated = hs
+		}
+		ov[filepath.Join(c.Repo, "zzvrf", "h_c17", "zz_gen.go")] = filepath.Join(c.genDir, "zz_gen.go")
 	}
 	return ov, nil
 }
@@ -232,7 +250,7 @@ func initAllow(path string) bool {
 	switch path {
 	case "cosmossdk.io/store/types", "cosmossdk.io/store/prefix", "cosmossdk.io/errors",
 		"github.com/cosmos/cosmos-sdk/types/errors", "cosmossdk.io/core/store", "context", "io",
-		"github.com/cosmos/cosmos-sdk/types/kv":
+		"github.com/cosmos/cosmos-sdk/types/kv", "github.com/cosmos/cosmos-sdk/x/gov/types":
 		return true
 	}
 	return false
@@ -385,6 +403,11 @@ func loadFindings(c *Config) []finding {
 
 func runCheck(c *Config) int {
 	t0 := time.Now()
+	defer func() {
+		if c.genDir != "" {
+			os.RemoveAll(c.genDir)
+		}
+	}()
 	evPath := filepath.Join(c.Verif, "evidence", c.Prop+".json")
 	os.MkdirAll(filepath.Dir(evPath), 0o755)
 	os.Remove(evPath)
@@ -720,6 +743,7 @@ func runCheck(c *Config) int {
 			"problems":                      problems,
 			"notes":                         notes,
 			"source_tree_digest":            treeDigest(c, fnList, l),
+			"entry_points_enumerated":       c.generated,
 			"explanation":                   "bounded symbolic execution of the real Go SSA of /repo; every assertion instance is an SMT query (path condition AND NOT assertion) decided by " + c.Solver + "; states = symbolic paths, transitions = symbolic branch decisions",
 		},
 		"assumptions": assumptionsFor(decls),
